@@ -20,8 +20,8 @@ PLAN = {
 }
 
 DEPS = {
-    "C01": ["theories/Proofs/CommProofs.vo"], "C02": ["theories/Proofs/CommProofs.vo"],
-    "C03": ["theories/Proofs/CommProofs.vo"], "C04": ["theories/Proofs/CommProofs.vo"],
+    "C01": ["theories/Proofs/CommThms.vo"], "C02": ["theories/Proofs/CommThms.vo"],
+    "C03": ["theories/Proofs/CommThms.vo"], "C04": ["theories/Proofs/CommThms.vo"],
     "C09": ["theories/Proofs/PopenProofs.vo", "theories/Proofs/StatusProofs.vo"],
     "C10": ["theories/Proofs/PopenProofs.vo"], "C11": ["theories/Proofs/PopenProofs.vo"],
 }
